@@ -45,6 +45,7 @@ def auto_lons(prj, tier, seed):
     step = 6.0 if tier == 'quick' else 1.5
     out += fill(lo + 0.7, hi, step, seed, 4)
     out += [-180.0, 180.0 - 1e-6, lo, hi - 1e-6]
+    out += [1.5, 4.5, 7.5, 10.5, 13.5, 19.5, 22.5, 31.5, 34.5, 40.5]      # inside / between the irregular-zone windows of the UTM system
     # statement: lon in [-180, 180); zones beyond 60 are outside the API's domain (3-degree layout)
     out = [x for x in out if -180.0 <= x < 180.0 and lo <= x < hi - 1e-12]
     return uniq(out)
@@ -58,7 +59,7 @@ def explicit_zones(prj, tier):
     nz = cfg.n_zones(prj)
     if tier == 'thorough':
         return list(range(1, nz + 1))
-    return sorted({z for z in [1, 2, 30, 31, 55, 59, 60] if z <= nz} | {nz, max(1, nz // 2)})
+    return sorted({z for z in [1, 2, 30, 31, 32, 33, 35, 37, 55, 59, 60] if z <= nz} | {nz, max(1, nz // 2)})
 
 
 def gen_rows(tier, seed, configs=None, kinds=True, lat_fn=None):
